@@ -46,6 +46,7 @@ def build_pools(p):
 
     from dateparser.data import languages_info
 
+    locmap = getattr(languages_info, "language_locale_dict", {})
     pools = {}
     for L in languages_info.language_order:
         try:
@@ -63,7 +64,7 @@ def build_pools(p):
                 s = re.sub(r"\(\\d\+\[\.,\]\?\\d\*\)", "3", pat)
                 if "\\" not in s and "(" not in s:
                     relre.append(s)
-        pools[L] = {"months": months, "days": days, "rel": rel[:12], "relre": relre[:10], "nws": "no_word_spacing" in info, "skip": [s for s in info.get("skip", []) if s.strip() and len(s) > 1][:6]}
+        pools[L] = {"months": months, "days": days, "rel": rel[:12], "relre": relre[:10], "nws": "no_word_spacing" in info, "skip": [s for s in info.get("skip", []) if s.strip() and len(s) > 1][:6], "locales": list(locmap.get(L, []))[:4]}
     return {"order": list(languages_info.language_order), "langs": pools}
 
 
@@ -326,6 +327,8 @@ def gen_history(rng, pools, tier):
         elif lr < 0.75 and "-" not in L:
             kw["region"] = rng.choice(["US", "BE", "CA", "IN", "001"])
             kw["languages"] = [L]
+        elif lr < 0.80 and (pools["langs"].get(L) or {}).get("locales"):
+            kw["locales"] = [rng.choice(pools["langs"][L]["locales"])]
         # else: autodetect (default parser)
         if var is not None:
             kw["settings"] = copy.deepcopy(var)
